@@ -125,7 +125,8 @@ def parseTree (s : String) : Option JV :=
 
 /-- `run <tables> <P|T> <single|multi> <opts> <chunk lengths> <hex input>`.
 opts: `r` reader entry point, `F` the harness token functions are registered, `+` the instance was
-left with `plus` set, `x` (tokenizer) the instance was left expecting a key; `I`, `K` switch the
+left with `plus` set, `x` (tokenizer) the instance was left expecting a key (no effect since f540857: `exkey`
+is reset at entry); `I`, `K` switch the
 pinned fast-path deviations fastInt, tokSlow OFF (the repaired machine); `M` (nlSkip off) is accepted and
 has no effect since 7b94de8: the flag is off in the model of the code as it is.
 
